@@ -325,6 +325,16 @@ def aux_of(scenario, pidx):
     return out
 
 
+def score_only(a, b):
+    """A non-finite score comes with a meaningless (partly uninitialised)
+    gradient: only the scores are compared then."""
+    if (isinstance(a, tuple) and isinstance(b, tuple) and len(a) == 2
+            and len(b) == 2 and np.isscalar(a[0]) and np.isscalar(b[0])
+            and not np.isfinite(a[0]) and not np.isfinite(b[0])):
+        return a[0], b[0]
+    return a, b
+
+
 def tolerance(q):
     if q in ('s1', 'p_s1', 'e_s1', 'c_s1'):
         return dict(rtol=1e-9, atol=1e-11, norm=True)
@@ -448,10 +458,11 @@ def run(scenario, world):
                     world.probe('minus_inf_returned_after_solver_failure')
             else:
                 ref = reference(h, q, pidx, vec, aux)
-                same = identical(ref, res) if q in (
+                ref_c, res_c = score_only(ref, res)
+                same = identical(ref_c, res_c) if q in (
                     'e_sample', 'p_sample', 'sample', 'sample_df', 'init',
                     'regimen', 'names', 'c_names') else close(
-                        ref, res, **tolerance(q))
+                        ref_c, res_c, **tolerance(q))
                 if not same:
                     mism = 'values'
                     if is_exc(res) and not is_exc(ref):
@@ -611,7 +622,10 @@ def run(scenario, world):
                                 len(hit))
                 for b, out in enumerate(outs):
                     for i, (a, c) in enumerate(zip(out, seq)):
-                        if not close(a, c, **tolerance('s1' if s1 else 'x')):
+                        a_c, c_c = score_only(
+                            tuple(a) if s1 else a, tuple(c) if s1 else c)
+                        if not close(a_c, c_c,
+                                     **tolerance('s1' if s1 else 'x')):
                             raise Violation(
                                 'parallel.scores', 'values',
                                 '%s batch %d position %d (workers %d, '
@@ -872,6 +886,12 @@ def generate(rng, index, tier):
         n = obj.get_n_parameters() if r['kind'] == 'ctrl' \
             else obj.n_parameters()
         points[r['h']] = [_vals(rng, n) for _ in range(3)]
+        if r['kind'] in ('logpost', 'hierpost', 'ctrl_post', 'filterpost') \
+                and rng.random() < 0.5:
+            # one point outside the support of the (log-normal) prior: the
+            # posterior returns -inf before any simulation
+            j = n - 1 if r['kind'] != 'filterpost' else 0
+            points[r['h']][1][j] = -abs(points[r['h']][1][j])
     if fixed_ll and 'lp' in [r['h'] for r in recipes]:
         # the posterior is built on the fixed likelihood
         t2 = Table(recipes)
